@@ -352,6 +352,55 @@ def late_writer(ctx: Ctx) -> None:
                                                                               f"sees status {st.value} and {outcome} instead of {want}", rep)
 
 
+def store_emptied_by_another_instance(ctx: Ctx) -> None:
+    """a long-lived worker has produced (and still holds in its local cache) a large value; another instance of the application empties
+    the shared argument/result store (`purge`, a maintenance job); the worker then finishes a NEW invocation with equal content: the
+    SUCCESS it publishes must come with a result that any other instance can read"""
+    import copy as _copy
+
+    from pynenc.app import Pynenc
+    from pynenc.invocation.status import InvocationStatus as S
+
+    def another(app):  # type: ignore[no-untyped-def]
+        Pynenc._clear_instances()
+        a2 = Pynenc(config_values=_copy.deepcopy(app.config_values))
+        Pynenc._clear_instances()
+        return a2
+
+    for ser in ("JsonSerializer", "PickleSerializer", "JsonPickleSerializer"):
+        for what in ("client_data_store", "app"):
+            worker = make_app("sqlite", ctx.tmp, app_id=f"c05purged{ser}{what}", serializer_cls=ser, min_size_to_cache=64)
+            echo = worker.task(T.c05_echo)
+            o = worker.orchestrator
+            big = {"rows": ["r" * 40] * 20}
+            rA = rctx("rA")
+            outs = []
+            for rnd in (1, 2):
+                inv = echo(rnd)
+                got = list(o.get_invocations_to_run(1, rA))
+                o.set_invocation_status(inv.invocation_id, S.RUNNING, rA)
+                o.set_invocation_result(got[0], _copy.deepcopy(big), rA)
+                flush(worker)
+                reader = another(worker)
+                reader.task(T.c05_echo)
+                try:
+                    st = reader.orchestrator.get_invocation_status(inv.invocation_id).value
+                    val = reader.state_backend.get_invocation(inv.invocation_id).get_final_result()
+                    outs.append((st, "value" if val == big else f"other value {str(val)[:60]}"))
+                except BaseException as e:  # noqa: BLE001
+                    outs.append((reader.orchestrator.get_invocation_status(inv.invocation_id).value, f"raised {type(e).__name__}: {str(e)[:80]}"))
+                if rnd == 1:
+                    op = another(worker)                       # the operator's instance
+                    (op.client_data_store.purge() if what == "client_data_store" else op.purge())
+            ctx.count()
+            ctx.distinct(("sqlite", ser, "store-emptied-by-another-instance", what))
+            if outs[1] != ("success", "value"):
+                ctx.report(f"success-without-readable-result[sqlite]:after-foreign-purge",
+                           f"[sqlite/{ser}] a worker finished two invocations with equal large results; between them another instance ran {what}.purge(): another instance reads "
+                           f"round 1 as {outs[0]} and round 2 as {outs[1]} - SUCCESS is published but the result is not there",
+                           {"scenario": "store-emptied-by-another-instance", "backend": "sqlite", "serializer": ser, "purged": what})
+
+
 def run(ctx: Ctx) -> None:
     def gen() -> dict[str, str]:
         g = trs.gen()
@@ -364,6 +413,7 @@ def run(ctx: Ctx) -> None:
     value_path(ctx)
     fault_and_alias(ctx)
     late_writer(ctx)
+    store_emptied_by_another_instance(ctx)
     for kind in ("mem", "sqlite"):
         scheduled(ctx, kind)
     ctx.sample({"effect_programs": {k: v for k, v in trp.extract(ctx.tmp).items() if k.startswith("run")}})
